@@ -90,6 +90,19 @@ def specs(tier, seed):
         sess = {"qtype": "NULL", "raw": True} if i % 4 != 3 else {"qtype": common.QTYPES[i % 7], "lazy": 1}
         out.append({"seed": seed * 100000 + 297 + i, "sess": sess, "relay": {}, "mode": "clean", "pkts": pk,
                     "dur_ms": 300 + gap * n + 40000, "label": "steady%d" % i})
+    # one lost datagram in a busy tunnel: the query that carries (a fragment of) an upstream packet is lost while downstream
+    # packets keep coming several times a second for most of a minute; the path is perfect otherwise.  The upstream packet
+    # must still get through within the bound - the retransmission must not depend on the tunnel falling silent
+    for i in range(8 if tier == "quick" else 48):
+        gap = [300, 450, 200, 700][i % 4]
+        t_up = 2000 + 37 * i
+        pk = [[500 + gap * j, "S", "C0", ["text", "rand"][j % 2], 40 + (j * 11) % 120] for j in range(45000 // gap)]
+        pk += [[t_up, "C0", "S", "rand", [60, 300, 700][i % 3]], [t_up + 4000, "C0", "S", "text", 80], [t_up + 9000, "C0", "S", "rand", 200]]
+        pk.sort(key=lambda x: x[0])
+        out.append({"seed": seed * 100000 + 298 + i,
+                    "sess": {"qtype": common.QTYPES[i % 7], "lazy": 1 if i % 4 != 3 else 0, "fragsize": [None, 200][i % 2]},
+                    "relay": {"hold_up": [{"useq": 1, "ufrag": [0, 0, 1][i % 3] if i % 3 != 2 or True else 0, "delay_us": -1, "count": 1}]},
+                    "mode": "faulty", "post_ms": 0, "pkts": pk, "dur_ms": 90000, "label": "busyloss%d" % i})
     # fault prefix, heal, settle, then packets that must arrive
     n_f = 60 if tier == "quick" else 700
     fcfgs = common.configs(n_f, seed + 3)
